@@ -269,7 +269,7 @@ func (o *Op) msg(a *Atoms) sdk.Msg {
 	}
 	switch o.Kind {
 	case "define":
-		return &types.MsgDefineService{Name: svc, Description: contentText(o.Content), Author: a.addr(o.Owner), Schemas: testSchemas}
+		return &types.MsgDefineService{Name: svc, Description: contentText(o.Content), Tags: tagsOf(o.Content), Author: a.addr(o.Owner), Schemas: testSchemas}
 	case "bind":
 		return &types.MsgBindService{ServiceName: svc, Provider: a.addr(o.Prov), Deposit: o.Dep.coins(), Pricing: o.Pr.text(),
 			QoS: o.QoS, Options: "{}", Owner: a.addr(o.Owner)}
@@ -333,4 +333,13 @@ func (o *Op) signer() int64 {
 		return o.From
 	}
 	return 0
+}
+
+
+// tagsOf: the tags of a definition are glue the model does not carry; they are a function of the
+// content atom so that histories replay identically. Sets that differ only by case or blanks are legal
+// for the message and must be stored as sent (every stored definition must satisfy the module's own rules).
+func tagsOf(content int64) []string {
+	sets := [][]string{nil, {"a"}, {"DeFi", "defi"}, {"x", " x"}, {"t1", "t2", "t3"}, {"Oracle", "oracle", "ORACLE"}}
+	return sets[int(content)%len(sets)]
 }
